@@ -239,6 +239,33 @@ fn post_checks(s: &mut Sim, _plan: &Plan) {
     for e in eb {
         s.violate("ebadf_in_parent", format!("ebadf_in_parent/{}", e.replace(' ', "_")), format!("the library used or closed a descriptor that is not open: {}", e));
     }
+    // C17 and C18 hold for every child the library started, in every family
+    let kids: Vec<(usize, Option<ChildReport>, bool, u64, Option<Disp>)> = s
+        .k
+        .all_procs()
+        .filter_map(|p| match p.kind {
+            PKind::Child(i) => Some((i, p.report.clone(), p.exec.is_some(), p.exec_mask, p.exec_sigpipe)),
+            _ => None,
+        })
+        .collect();
+    let parent_mask_nonzero = _plan.parent.sigmask != 0;
+    for (i, rep, execd, mask, sp) in kids {
+        if let Some(rep) = rep {
+            if rep.alloc_count > 0 {
+                let sz = rep.alloc_sizes.first().cloned().unwrap_or(0);
+                let class = if sz >= 384 { "ge384" } else if sz >= 64 { "ge64" } else { "small" };
+                s.violate("alloc_in_child", format!("alloc_in_child/exec_ok={}/first_size_class={}", execd, class), format!("spawn #{}: {} heap allocation(s) between fork and exec (sizes {:?})", i, rep.alloc_count, rep.alloc_sizes));
+            }
+            if execd {
+                if mask != 0 {
+                    s.violate("sigmask_inherited", format!("sigmask_inherited/parent_mask_nonzero={}", parent_mask_nonzero), format!("spawn #{}: the program starts with signal mask {:#x} (spawning thread's mask {:#x})", i, mask, _plan.parent.sigmask));
+                }
+                if sp != Some(Disp::Default) {
+                    s.violate("sigpipe_not_default", format!("sigpipe_not_default/parent={:?}", _plan.parent.sigpipe), format!("spawn #{}: the program starts with SIGPIPE {:?}", i, sp));
+                }
+            }
+        }
+    }
     // escaped children
     let esc: Vec<(usize, String)> = s.k.all_procs().filter_map(|p| match (p.kind, &p.escaped) {
         (PKind::Child(i), Some(h)) => Some((i, h.clone())),
